@@ -3,7 +3,7 @@ from io import BytesIO
 from buidl.bech32 import decode_bech32, encode_bech32_checksum
 from buidl.ecc import S256Point
 from buidl.helper import (
-    decode_base58,
+    raw_decode_base58,
     encode_base58_checksum,
     encode_varstr,
     hash160,
@@ -624,14 +624,17 @@ class WitnessScript(Script):
 
 
 def address_to_script_pubkey(s):
-    if s[:1] in ("1", "m", "n"):
-        # p2pkh
-        h160 = decode_base58(s)
-        return P2PKHScriptPubKey(h160)
-    elif s[:1] in ("2", "3"):
-        # p2sh
-        h160 = decode_base58(s)
-        return P2SHScriptPubKey(h160)
+    if s.upper() == s and s.lower()[:3] in ("bc1", "tb1", "bcr"):
+        # BIP173: an all-uppercase bech32 address is the same address
+        s = s.lower()
+    if s[:1] in ("1", "m", "n", "2", "3"):
+        raw = raw_decode_base58(s)
+        # version byte + 20-byte hash, and the version must be an address version
+        if len(raw) == 21 and raw[0] in (0x00, 0x6F):
+            return P2PKHScriptPubKey(raw[1:])
+        if len(raw) == 21 and raw[0] in (0x05, 0xC4):
+            return P2SHScriptPubKey(raw[1:])
+        raise RuntimeError(f"unknown type of address: {s}")
     elif s[:4] in ("bc1q", "tb1q") or s[:6] == "bcrt1q":
         # regtest p2wpkh is len 44, p2wsh is len 64 (2 extra for "bcrt" vs "bc"/"tb")
         if len(s) in (42, 44):
